@@ -29,6 +29,11 @@ def leaf_equal(a, b):
     if isinstance(a, (tuple, list)):
         return (isinstance(b, (tuple, list)) and len(a) == len(b)
                 and all(leaf_equal(x, y) for x, y in zip(a, b)))
+    if isinstance(a, np.ndarray) != isinstance(b, np.ndarray) and isinstance(
+            b if isinstance(a, np.ndarray) else a, (tuple, list)):
+        # (a tuple / list that came back as an array - or the reverse - is
+        # another value: arrays have one type for all entries)
+        return False
     if isinstance(a, np.ndarray) or isinstance(b, np.ndarray):
         a, b = np.asarray(a), np.asarray(b)
         return a.shape == b.shape and bool(np.array_equal(a, b))
